@@ -1,0 +1,10 @@
+//go:build verif
+
+package stdio
+
+// Contracts for the goverif VC generator (/verif). Comment-only file: it adds no code.
+
+// CreatePipe returns what the registered constructor returns; every registered constructor returns
+// either an error or a usable pipe (trusted: constructors live in the pipe packages).
+//@ func CreatePipe [C26] trusted
+//@   ensures imp(result1 == nil, result != nil)
